@@ -109,6 +109,16 @@ def check_keys(ctx):
     rt = [k(util.stmt_key(s)) for s in ast.walk(fr) if isinstance(s, ast.stmt)]
     ok = 'annotation_list=annotation_string[ind0:ind1].split(\' \')' in rt and \
         "key_vals=[(i.split('=')[0],i.split('=')[1])foriinannotation_listif'='ini]" in rt and 'propensity_params[k]=v' in rt
+    # every key=value pair of the propensity annotation is kept, on every path of the reader loop
+    from .. import paths as _paths
+    ploops = [n for n in ast.walk(fr) if isinstance(n, ast.For) and k(src(n.iter)) == 'key_vals'
+              and any(isinstance(x, ast.Assign) and k(src(x.targets[0])) == 'propensity_params[k]' for x in ast.walk(n))]
+    kept = len(ploops) == 1
+    if kept:
+        for p_ in _paths.Enumerator().run(ploops[0].body, _paths.State()):
+            if p_.exit == 'fall' and not any(isinstance(e.node, ast.Assign) and k(src(e.node.targets[0])) == 'propensity_params[k]' for e in p_.stmts()):
+                kept = False
+    ok = ok and kept
     sep_w = "propensity_annotation_string+=' '+k+'='+str(propensity_annotation_dict[k])" in txt
     ctx.ob('R12.1-separators', 'propensity', ok and sep_w, ctx.loc('sbmlutil', fr),
            "writer and reader agree on ' ' between pairs and '=' inside a pair", '')
@@ -145,8 +155,16 @@ def check_keys(ctx):
     ok = len(js) == 1 and 'rule_frequency=' in src(js[0].value) and '<BioscrapeRule>' in src(js[0].value)
     frr = c13.func(ctx, 'import_sbml_rules')
     rr = [k(util.stmt_key(s)) for s in ast.walk(frr) if isinstance(s, ast.stmt)]
-    ok2 = 'rule_frequency=v' in rr and any(isinstance(n, ast.If) and k(src(n.test)) == "k=='rule_frequency'" for n in ast.walk(frr))
-    ctx.ob('R12.1-rule-frequency', 'key', ok and ok2, ctx.loc('sbmlutil', far), "the rule frequency is written and read under the key 'rule_frequency'", '')
+    # the value read for the key must reach rule_frequency unconditionally (any value the writer can emit - keyword or number - is kept)
+    key_ifs = [n for n in ast.walk(frr) if isinstance(n, ast.If) and k(src(n.test)) == "k=='rule_frequency'"]
+    ok2 = len(key_ifs) == 1 and any(k(util.stmt_key(x)) == 'rule_frequency=v' for x in key_ifs[0].body) and not key_ifs[0].orelse
+    ctx.ob('R12.1-rule-frequency', 'key', ok and ok2, ctx.loc('sbmlutil', far),
+           "the rule frequency is written and read under the key 'rule_frequency', and whatever value was written is taken over unconditionally", '')
+    # and it is that variable that goes into the rule tuple
+    ok3 = 'rule_tuple=(rule_type,rule_dict,rule_frequency)' in rr and 'allrules.append(rule_tuple)' in rr
+    defaults = [x for x in rr if x.startswith('rule_frequency=') and x != 'rule_frequency=v']
+    ctx.ob('R12.1-rule-frequency', 'forwarded', ok3 and set(defaults) <= {"rule_frequency='repeated'"}, ctx.loc('sbmlutil', frr),
+           "the frequency read from the annotation (default 'repeated' without annotation) is what the imported rule gets", str(defaults))
     return fw, far
 
 
